@@ -1,0 +1,223 @@
+//! Verification hooks, compiled only with cargo feature `verif-hooks`.
+//!
+//! Nothing here is part of the public API of the crate. With the feature
+//! off this module does not exist and no other file refers to it.
+//!
+//! - [`SparseTable`] stands in for the two 8 MiB multiplication tables so
+//!   that a model checker can be handed only the rows a harness needs.
+//! - [`set_table_providers`] lets a harness supply all lookup tables instead
+//!   of running the initialisers.
+//! - [`set_poison`] installs a callback that overwrites working memory that
+//!   survives a resize (stale contents become adversarial).
+//! - [`set_feature_mask`] / [`isa_trace`] restrict and observe runtime SIMD
+//!   selection.
+//! - thin `pub` wrappers around crate-private functions.
+
+#![allow(missing_docs, clippy::missing_panics_doc, clippy::must_use_candidate)]
+
+use std::ops::Index;
+
+use crate::engine::{
+    tables::{ExpLog, LogWalsh, Mul128, Mul16, Skew},
+    GfElement, GF_ORDER,
+};
+
+// ======================================================================
+// SparseTable
+
+#[derive(Clone, Copy, PartialEq, Eq, Debug)]
+pub enum SparseMode {
+    /// Linear search by key; a missing key panics.
+    Search,
+    /// Row `i` is `rows[i]` (all 65536 rows present, in order).
+    Dense,
+    /// Every index maps to `rows[0]`.
+    Wildcard,
+}
+
+pub struct SparseTable<T: 'static> {
+    rows: &'static [(u16, T)],
+    mode: SparseMode,
+}
+
+impl<T: 'static> SparseTable<T> {
+    pub const fn new(rows: &'static [(u16, T)], mode: SparseMode) -> Self {
+        Self { rows, mode }
+    }
+
+    pub fn rows(&self) -> &'static [(u16, T)] {
+        self.rows
+    }
+}
+
+impl<T: 'static> Index<usize> for SparseTable<T> {
+    type Output = T;
+    fn index(&self, index: usize) -> &T {
+        match self.mode {
+            SparseMode::Dense => &self.rows[index].1,
+            SparseMode::Wildcard => &self.rows[0].1,
+            SparseMode::Search => {
+                let mut i = 0;
+                while i < self.rows.len() {
+                    if self.rows[i].0 as usize == index {
+                        return &self.rows[i].1;
+                    }
+                    i += 1;
+                }
+                panic!("verif-hooks: sparse table row not supplied");
+            }
+        }
+    }
+}
+
+// ======================================================================
+// Table providers
+
+#[derive(Clone, Copy)]
+pub struct TableProviders {
+    pub exp_log: Option<fn() -> ExpLog>,
+    pub log_walsh: Option<fn() -> Box<LogWalsh>>,
+    pub mul16: Option<fn() -> Box<Mul16>>,
+    pub mul128: Option<fn() -> Box<Mul128>>,
+    pub skew: Option<fn() -> Box<Skew>>,
+}
+
+static mut TABLE_PROVIDERS: TableProviders = TableProviders {
+    exp_log: None,
+    log_walsh: None,
+    mul16: None,
+    mul128: None,
+    skew: None,
+};
+
+/// Must be called before the first use of any table, from one thread.
+pub fn set_table_providers(providers: TableProviders) {
+    unsafe {
+        TABLE_PROVIDERS = providers;
+    }
+}
+
+pub(crate) fn table_providers() -> TableProviders {
+    unsafe { TABLE_PROVIDERS }
+}
+
+// ======================================================================
+// Poison
+
+static mut POISON: Option<fn(&mut [[u8; 64]])> = None;
+
+pub fn set_poison(callback: Option<fn(&mut [[u8; 64]])>) {
+    unsafe {
+        POISON = callback;
+    }
+}
+
+/// Called by `Shards::resize` with the blocks that kept their old contents.
+pub(crate) fn poison(stale: &mut [[u8; 64]]) {
+    if let Some(callback) = unsafe { POISON } {
+        callback(stale);
+    }
+}
+
+// ======================================================================
+// Feature mask and ISA trace
+
+pub const ISA_AVX2: u32 = 1;
+pub const ISA_SSSE3: u32 = 2;
+pub const ISA_NEON: u32 = 4;
+
+static mut FEATURE_MASK: u32 = u32::MAX;
+static mut ISA_TRACE: u32 = 0;
+
+pub fn set_feature_mask(mask: u32) {
+    unsafe {
+        FEATURE_MASK = mask;
+    }
+}
+
+pub fn feature_mask() -> u32 {
+    unsafe { FEATURE_MASK }
+}
+
+pub fn isa_trace() -> u32 {
+    unsafe { ISA_TRACE }
+}
+
+pub fn clear_isa_trace() {
+    unsafe {
+        ISA_TRACE = 0;
+    }
+}
+
+#[inline(always)]
+pub(crate) fn trace_isa(isa: u32) {
+    unsafe {
+        ISA_TRACE |= isa;
+    }
+}
+
+// ======================================================================
+// State views
+
+#[derive(Clone, Copy, PartialEq, Eq, Debug)]
+pub struct ShardsView {
+    pub shard_count: usize,
+    pub shard_len_64: usize,
+    pub data_ptr: usize,
+    pub data_len: usize,
+    pub data_capacity: usize,
+}
+
+#[derive(Clone, Copy, PartialEq, Eq, Debug)]
+pub struct EncoderWorkView {
+    pub original_count: usize,
+    pub recovery_count: usize,
+    pub shard_bytes: usize,
+    pub original_received_count: usize,
+    pub shards: ShardsView,
+}
+
+#[derive(Clone, Copy, PartialEq, Eq, Debug)]
+pub struct DecoderWorkView {
+    pub original_count: usize,
+    pub recovery_count: usize,
+    pub shard_bytes: usize,
+    pub original_base_pos: usize,
+    pub recovery_base_pos: usize,
+    pub original_received_count: usize,
+    pub recovery_received_count: usize,
+    pub received_len: usize,
+    pub received_ptr: usize,
+    pub shards: ShardsView,
+}
+
+// ======================================================================
+// Wrappers around crate-private functions
+
+pub fn add_mod(x: GfElement, y: GfElement) -> GfElement {
+    crate::engine::utils::add_mod(x, y)
+}
+
+pub fn sub_mod(x: GfElement, y: GfElement) -> GfElement {
+    crate::engine::utils::sub_mod(x, y)
+}
+
+pub fn fwht(data: &mut [GfElement; GF_ORDER], m_truncated: usize) {
+    crate::engine::verif_fwht(data, m_truncated);
+}
+
+pub fn fwht_2(a: GfElement, b: GfElement) -> (GfElement, GfElement) {
+    crate::engine::verif_fwht_2(a, b)
+}
+
+pub fn fwht_4(data: &mut [GfElement; GF_ORDER], offset: u16, dist: u16) {
+    crate::engine::verif_fwht_4(data, offset, dist);
+}
+
+pub fn formal_derivative(data: &mut crate::engine::ShardsRefMut) {
+    crate::engine::formal_derivative(data);
+}
+
+pub fn use_high_rate(original_count: usize, recovery_count: usize) -> Result<bool, crate::Error> {
+    crate::rate::verif_use_high_rate(original_count, recovery_count)
+}
